@@ -133,7 +133,9 @@ class Gen:
                 # an element that holds no setting at all ('' / ';' / an empty list)
                 items[r.randrange(k)] = r.choice(['e:empty', 'e:semi', 'e:semis', []])
             shape = r.random()
-            if shape < 0.55:
+            if k == 1 and isinstance(items[0], str) and shape < 0.2:
+                spec = items[0]         # the bare setting itself (int, name, AnsiFormat member, AnsiSetting ...), no list
+            elif shape < 0.55:
                 spec = items
             elif shape < 0.7:
                 spec = {'tuple': items}
@@ -160,6 +162,8 @@ class Gen:
         cand = [i for i in self.atoms if any(c in present for c in atoms.CATALOGUE[i].codes)]
         if cand and r.random() < 0.75:
             k = 1 if r.random() < 0.7 else 2
+            if k == 1 and r.random() < 0.2:
+                return r.choice(cand)       # bare, not wrapped in a list
             return [r.choice(cand) for _ in range(k)]
         return [r.choice(self.atoms)]
 
@@ -464,14 +468,14 @@ class Gen:
         return w
 
     def fill(self):
-        return self.rng.choice([' ', ' ', '*', ':', '+', '-', '0', '5', '<', '^', '\t', 'é', '\U0001d4b3'])
+        return self.rng.choice([' ', ' ', '*', ':', '+', '-', '0', '5', '<', '^', '\t', 'é', '\U0001d4b3', 'x', 'Z', '\n', '>'])
 
     def g_pad(self, world):
         r = self.rng
         s = self.recv_slot(world, maxlen=self.MAXLEN)
         n = len(world.obs[s].text)
         how = r.choice(['ljust', 'rjust', 'center', 'center', 'zfill'])
-        op = {'op': 'pad', 'r': s, 'd': self.slot(), 'ip': self.ip(), 'how': how, 'w': max(0, self.width(n)),
+        op = {'op': 'pad', 'r': s, 'd': self.slot(), 'ip': self.ip(), 'how': how, 'w': self.width(n),
               'fill': self.fill(), 'ext': r.random() < 0.6}
         if op['w'] > 100:
             # huge results are produced (termination, consistency) but not kept in the world
@@ -490,7 +494,7 @@ class Gen:
         else:
             sp = {'align': r.choice('<>^'), 'width': max(0, self.width(n)) if r.random() < 0.9 else None}
             if r.random() < 0.7:
-                sp['fill'] = r.choice([' ', '*', ':', '+', '-', '0', '5', 'é', '<', '>', '^'])
+                sp['fill'] = r.choice([' ', '*', ':', '+', '-', '0', '5', 'é', '<', '>', '^', 'x', 'Z', '\n', '.'])
                 if r.random() < 0.5 or sp['fill'] in '+-':
                     sp['flag'] = r.choice('+-')      # a lone '+'/'-' before the alignment could be read as the flag
             if sp.get('width') is None:
@@ -580,8 +584,8 @@ class Gen:
         how = r.choice(['prefix', 'suffix'])
         k = r.randint(1, max(1, min(3, len(t))))
         x = (t[:k] if how == 'prefix' else t[len(t) - k:]) if (t and r.random() < 0.75) else self.pattern(world.obs[s])
-        if not x:
-            x = 'a'
+        if not x and r.random() < 0.5:
+            x = 'a'           # otherwise the empty affix itself (str: the text is returned unchanged)
         return {'op': 'rmfix', 'r': s, 'd': self.slot(), 'ip': self.ip(), 'how': how, 'x': x}
 
     def g_split(self, world):
